@@ -107,6 +107,15 @@ def gen_C15(rng, tier):
                     out.append(('hexdecinto %d %s' % (dstlen, hexb(txt)), 'hexdecinto/' + c + ('/exact' if nd == 2 * dstlen else '/wrong')))
                     if dstlen == 32:
                         out.append(('hexdec ' + hexb(txt), 'hexdec/' + c))
+    # near-prefixes: two characters that are almost "0x" in front of a payload of exactly 2*dstlen valid
+    # digits (a prefix test that looks at one of the two characters only accepts some of them)
+    NEARP = (b'1x', b'xx', b'Ox', b'zx', b'\x00x', b'fx', b'0y', b'0w', b'x0', b'00', b'0:', b'8x', b'/x')
+    for dstlen in (0, 1, 32, 64):
+        t = bytes(rng.choice(HEXCH) for _ in range(2 * dstlen))
+        for pre in NEARP:
+            out.append(('hexdecinto %d %s' % (dstlen, hexb(pre + t)), 'hexdecinto/near-prefix'))
+            if dstlen == 32:
+                out.append(('hexdec ' + hexb(pre + t), 'hexdec/near-prefix'))
     # signatures / public keys
     pts = small_pts() + [B8] + [random_point(rng, subgroup=(i % 2 == 0)) for i in range(4 * N)]
     for P in pts:
@@ -148,6 +157,7 @@ def gen_C15(rng, tier):
         texts = [base[:k] for k in (0, 1, nd - 2, nd - 1)] + [base + b'0', base + b'00', base + base, base.upper(), b'0x' + base, b'0X' + base,
                  b'0x0x' + base[4:], b'0x0x' + base, b'0x' + base[:-1], b'0x' + base + b'0',
                  b'g' + base[1:], base[:-1] + b'g', base[:nd // 2] + b' ' + base[nd // 2 + 1:], b'0x' + base[:-1] + b'_', b' ' + base, base + b'\n']
+        texts += [pre + base for pre in (b'1x', b'xx', b'Ox', b'zx', b'0y', b'x0', b'fx')]
         for t in texts:
             for op in ops:
                 out.append(('%s %s' % (op, hexb(t)), op + '/text-forms'))
